@@ -510,14 +510,34 @@ class Interp:
         if not self.truth(self.eval(st.test, fr), _lbl(st.test)):
             raise PyRaise(AssertionError)
 
-    def _loop_key(self, fr):
-        k = fr.loop_ordinal
-        fr.loop_ordinal += 1
+    def _loop_key(self, fr, st):
+        """loops are keyed by their ordinal in source order within the function (not by line)"""
         q = fr.func.qualname if fr.func else fr.mod.name
-        return (q, k)
+        if fr.func is None:
+            return (q, -1)
+        node = fr.func.node
+        tab = getattr(node, "_loop_ordinals", None)
+        if tab is None:
+            tab = {}
+            for n in ast.walk(node):
+                pass
+            k = 0
+            stack = [node]
+            # pre-order, source order
+            def visit(n):
+                nonlocal k
+                for ch in ast.iter_child_nodes(n):
+                    if isinstance(ch, (ast.While, ast.For)):
+                        tab[id(ch)] = k
+                        k += 1
+                    if not isinstance(ch, (ast.FunctionDef, ast.ClassDef, ast.Lambda)):
+                        visit(ch)
+            visit(node)
+            node._loop_ordinals = tab
+        return (q, tab.get(id(st), -1))
 
     def s_While(self, st, fr):
-        key = self._loop_key(fr)
+        key = self._loop_key(fr, st)
         lc = self.cfg.loops.get(key)
         if lc is not None:
             return lc.run_while(self, st, fr)
@@ -537,7 +557,7 @@ class Interp:
         self.exec_block(st.orelse, fr)
 
     def s_For(self, st, fr):
-        key = self._loop_key(fr)
+        key = self._loop_key(fr, st)
         lc = self.cfg.loops.get(key)
         if lc is not None:
             return lc.run_for(self, st, fr)
